@@ -24,7 +24,7 @@ func init() {
 		Assumptions: []string{"Metastore.LoadLatest returns the newest record (C13)", "time.Now is the process clock"},
 		Tech:        "static analysis: guarded-by-condition (dominating branch facts) on SSA, boolean-disjunct structure, value provenance",
 		NeedU1:      true,
-		Rules:       []func(*Ctx){ruleC04LatestRevalidated, ruleC04LoaderRejectsInvalid, ruleC04NewKeysStampedNow, ruleC05MergeIdentity, ruleC04FreshnessRenewal, ruleC04LatestMapMonotonic, ruleC05FreshnessWriters},
+		Rules:       []func(*Ctx){ruleC04LatestRevalidated, ruleC04LoaderRejectsInvalid, ruleC04NewKeysStampedNow, ruleC05MergeIdentity, ruleC04FreshnessRenewal, ruleC04LatestMapMonotonic, ruleC05FreshnessWriters, ruleC05StaleMeansReload, ruleC13ConsistentReads},
 	})
 	register(&propSpec{
 		ID:            "C05",
@@ -39,7 +39,7 @@ func init() {
 		Assumptions: []string{"the loader passed to the cache re-reads the metastore (checked by C20.external-only-via-cache / C01 provenance rules)"},
 		Tech:        "static analysis: guarded-by-condition and must-pass-through on SSA over key_cache.go/envelope.go",
 		NeedU1:      true,
-		Rules:       []func(*Ctx){ruleC05StaleMeansReload, ruleC05ReloadRefreshes, ruleC05MergeIdentity, ruleC04LatestRevalidated, ruleC01NoValidityGateOnRead, ruleC08RefcountProtocol, ruleC04FreshnessRenewal, ruleC05FreshnessWriters, ruleC13FieldFidelity, ruleC15SetStoresValue},
+		Rules:       []func(*Ctx){ruleC05StaleMeansReload, ruleC05ReloadRefreshes, ruleC05MergeIdentity, ruleC04LatestRevalidated, ruleC01NoValidityGateOnRead, ruleC08RefcountProtocol, ruleC04FreshnessRenewal, ruleC05FreshnessWriters, ruleC13FieldFidelity, ruleC15SetStoresValue, ruleC13ConsistentReads, ruleC04LatestMapMonotonic},
 	})
 }
 
@@ -436,6 +436,65 @@ func ruleC05StaleMeansReload(c *Ctx) {
 	}
 	c.check(usesLoadedAt && usesInterval && usesClock && earlyOK, shortName(irr), u.pos(irr.Pos()), "consults entry.loadedAt, checkInterval and the clock; constant false only for already-revoked keys",
 		"isReloadRequired no longer depends on loadedAt/checkInterval/clock, or returns 'no reload' unconditionally for keys that are not revoked")
+	// the staleness verdict is exactly `loadedAt + checkInterval < now`, with the interval parameter itself: no slack, jitter
+	// or scaling (the bound "within one revoke-check interval" is the property)
+	isLoadedAt := func(v ssa.Value) bool {
+		_, fld, ok := fieldAccess(resolve(v))
+		if !ok {
+			_, fld, ok = fieldAccess(v)
+		}
+		return ok && fld == "loadedAt"
+	}
+	isInterval := func(v ssa.Value) bool { return isParamNamed(v, irr, 1) }
+	isNow := func(v ssa.Value) bool {
+		cv, ok := resolve(v).(*ssa.Call)
+		return ok && staticIs(cv, "time.Now")
+	}
+	callIs := func(v ssa.Value, full string) *ssa.Call {
+		cv, ok := resolve(v).(*ssa.Call)
+		if ok && staticIs(cv, full) {
+			return cv
+		}
+		return nil
+	}
+	deadline := func(v ssa.Value) bool { // loadedAt.Add(interval)
+		cv := callIs(v, "(time.Time).Add")
+		return cv != nil && isLoadedAt(cv.Call.Args[0]) && isInterval(cv.Call.Args[1])
+	}
+	elapsed := func(v ssa.Value) bool { // time.Since(loadedAt) / time.Now().Sub(loadedAt)
+		if cv := callIs(v, "time.Since"); cv != nil {
+			return isLoadedAt(cv.Call.Args[0])
+		}
+		if cv := callIs(v, "(time.Time).Sub"); cv != nil {
+			return isNow(cv.Call.Args[0]) && isLoadedAt(cv.Call.Args[1])
+		}
+		return false
+	}
+	exact := func(v ssa.Value) bool {
+		v = resolve(v)
+		if cv := callIs(v, "(time.Time).Before"); cv != nil {
+			return deadline(cv.Call.Args[0]) && isNow(cv.Call.Args[1])
+		}
+		if cv := callIs(v, "(time.Time).After"); cv != nil {
+			return isNow(cv.Call.Args[0]) && deadline(cv.Call.Args[1])
+		}
+		if bo, ok := v.(*ssa.BinOp); ok {
+			switch bo.Op {
+			case token.GTR, token.GEQ:
+				return elapsed(bo.X) && isInterval(bo.Y)
+			case token.LSS, token.LEQ:
+				return isInterval(bo.X) && elapsed(bo.Y)
+			}
+		}
+		return false
+	}
+	for _, r := range returnsOf(irr) {
+		if _, isC := constOf(r.Results[0]); isC {
+			continue
+		}
+		c.check(exact(returnedValue(r, 0)), shortName(irr)+"/exact-interval", u.ipos(r), "stale ⇔ loadedAt + checkInterval < now (the interval parameter itself)",
+			"the staleness verdict is not `entry.loadedAt + checkInterval < now` with the raw interval parameter (slack, jitter, scaling or another clock base): keys stay in use beyond one revoke-check interval after revocation / parent expiry")
+	}
 }
 
 func ruleC05ReloadRefreshes(c *Ctx) {
